@@ -254,6 +254,7 @@ func (i *InMemCollector) reloadConfigs() {
 			// Channel already has a signal pending, skip
 		}
 	}
+	verifEmit("reloaded")
 }
 
 // checkAlloc performs memory monitoring using runtime/metrics instead of
@@ -265,6 +266,9 @@ func (i *InMemCollector) checkAlloc(ctx context.Context) {
 
 	rtmetrics.Read(i.memMetricSample)
 	currentAlloc := i.memMetricSample[0].Value.Uint64()
+	if v, ok := verifHeapOverride(); ok {
+		currentAlloc = v
+	}
 
 	i.Metrics.Gauge(NUMERATOR_MEMORY_HEAP_ALLOC, float64(currentAlloc))
 
@@ -464,6 +468,7 @@ func (i *InMemCollector) ProcessSpanImmediately(sp *types.Span) (processed bool,
 		// we do want a record of how we disposed of traces in case more come in after we've
 		// turned off stress relief (if stress relief is on we'll keep making the same decisions)
 		worker.sampleCache.Record(trace, keep, reason)
+		verifEmit("stress_decision", "t", sp.TraceID, "keep", keep, "rate", rate)
 	} else {
 		rate = record.Rate()
 		keep = record.Kept()
@@ -520,6 +525,7 @@ func (i *InMemCollector) dealWithSentTrace(ctx context.Context, tr cache.TraceSe
 	}
 	isDryRun := i.Config.GetIsDryRun()
 	keep := tr.Kept()
+	verifEmit("late", "t", sp.TraceID, "kept", keep, "dry_run", isDryRun)
 	otelutil.AddSpanFields(span, map[string]interface{}{
 		"keep":      keep,
 		"is_dryrun": isDryRun,
@@ -616,6 +622,7 @@ func (i *InMemCollector) send(ctx context.Context, trace sendableTrace) {
 		dropCount := int64(trace.DescendantCount())
 		i.Metrics.Count("events_dropped", dropCount)
 		i.Logger.Debug().WithFields(logFields).Logf("Dropping trace because of sampling decision")
+		verifEmit("trace_dropped", "t", trace.TraceID, "n", dropCount)
 		return
 	}
 
@@ -655,6 +662,7 @@ func (i *InMemCollector) send(ctx context.Context, trace sendableTrace) {
 		i.Logger.Debug().WithFields(logFields).Logf("Sending trace")
 	}
 
+	verifEmit("trace_queued", "t", trace.TraceID, "n", trace.DescendantCount())
 	i.tracesToSend <- trace
 }
 
@@ -749,6 +757,7 @@ func (i *InMemCollector) sendTraces() {
 			sp.APIKey = t.APIKey
 			i.Transmission.EnqueueSpan(sp)
 		}
+		verifEmit("trace_sent", "t", t.TraceID)
 		span.End()
 	}
 }
